@@ -280,9 +280,10 @@ macro_rules! impl_cache {
                 Q: core::hash::Hash + Eq + ?Sized,
             {
                 let (index, conflict) = self.key_to_hash.build_key(key);
-                self.store
-                    .get(&index, conflict)
-                    .and_then(|_| self.store.expiration(&index).map(|time| time.get_ttl()))
+                // read the deadline through the reference just obtained: looking the entry up a
+                // second time would take the shard's read lock again while this one is still held
+                // and deadlock with a writer waiting in between
+                self.store.get(&index, conflict).map(|v| v.ttl())
             }
 
             /// `max_cost` returns the max cost of the cache.
@@ -608,9 +609,10 @@ macro_rules! impl_async_cache {
                 Q: core::hash::Hash + Eq + ?Sized,
             {
                 let (index, conflict) = self.key_to_hash.build_key(key);
-                self.store
-                    .get(&index, conflict)
-                    .and_then(|_| self.store.expiration(&index).map(|time| time.get_ttl()))
+                // read the deadline through the reference just obtained: looking the entry up a
+                // second time would take the shard's read lock again while this one is still held
+                // and deadlock with a writer waiting in between
+                self.store.get(&index, conflict).map(|v| v.ttl())
             }
 
             /// `max_cost` returns the max cost of the cache.
